@@ -551,6 +551,8 @@ def rewrite_body(cl: Closure, sk: Skeleton, src: str, op: str, captures: Dict[st
                 if canon in sk.cells or canon in sk.outer_cells:
                     j = match_seq(ts, i + 1, ['.', 'write', '()', '.', 'unwrap', '()'])
                     k = match_seq(ts, i + 1, ['.', 'read', '()', '.', 'unwrap', '()'])
+                    if (j > 0 or k > 0) and canon in shadowed and name not in local_bound:
+                        raise NotExtractable('state cell `%s` is used (as `%s`) after a local of the same name was bound: the extraction would capture the local' % (canon, name))
                     if j > 0:
                         reps.append((t.start, ts[j - 1].end, '(&mut *%s)' % canon))
                         if canon not in cells_used:
@@ -597,6 +599,8 @@ def rewrite_body(cl: Closure, sk: Skeleton, src: str, op: str, captures: Dict[st
                 if canon in captures and name not in local_bound:
                     if canon not in caps_used:
                         caps_used.append(canon)
+                    if canon != name and canon in local_bound:
+                        raise NotExtractable('captured `%s` is used (as `%s`) after a local of the same name was bound: the extraction would capture the local' % (canon, name))
                     if canon != name:
                         reps.append((t.start, t.end, canon))
                     i += 1
@@ -616,6 +620,8 @@ def rewrite_body(cl: Closure, sk: Skeleton, src: str, op: str, captures: Dict[st
                 while j < len(ts) and not ts[j].is_p('=') and not ts[j].is_p(';'):
                     if ts[j].kind == 'ident' and ts[j].text not in KEYWORDS:
                         pending_bind.append(ts[j].text)
+                        if ts[j].text in sk.cells or ts[j].text in sk.outer_cells:
+                            pending_shadow.append(ts[j].text)
                     elif ts[j].kind == 'group':
                         for _, _, u in walk(ts[j].kids):
                             if u.kind == 'ident' and u.text not in KEYWORDS:
@@ -635,11 +641,16 @@ def rewrite_body(cl: Closure, sk: Skeleton, src: str, op: str, captures: Dict[st
             if t.is_p(';') and pending_bind:
                 local_bound.update(pending_bind)
                 pending_bind.clear()
+                shadowed.update(pending_shadow)
+                pending_shadow.clear()
             i += 1
 
     local_bound = set()
     local_alias = {}
     pending_bind = []
+    pending_shadow = []
+    shadowed = set()      # canonical cell names that a local `let` of the same name has shadowed (hygiene: the cell becomes a
+                          # parameter with that name, so a later use of the cell through an alias would be captured by the local)
     scan(body)
     # R3: `_` parameters
     params = []
